@@ -8,6 +8,7 @@ def main(tier):
     P = facts.load("release")
     rep.analysed["tree_hash"] = P.tree_hash
     dep.culling(P, rep)
+    rep.attempt(dep.bbox_longitude_buffer, P, rep)
     segments.line_siblings(P, rep)     # slab and fault are copies of one another: shortcuts, input checks and guards must agree
     dep.accumulators(P, rep)
     dep.surface_pairing(P, rep)
